@@ -144,18 +144,18 @@ FUNCTIONS = list(_s.FUNCTIONS) + [
      'contract': """
         # a header value as HeadersStep hands it over (a CR follows inside the buffer) or as parse(std::string) does (a NUL follows)
         requires FRESH(this, sizeof(*this)) && len <= MAXLEN && FRESH(str, len + 1) && (str[len] == CR || str[len] == 0) && vs_exc == 0
-        assigns this->directives_, vs_exc, g_hit_end, g_w
+        assigns this->directives_, vs_exc, g_hit_end, g_j, g_w
         # C03: reads stay in [str, str+len] for any text, loops terminate, malformed text is an error
         ensures vs_exc == 0 || vs_exc == VS_EXC_RUNTIME_ERROR""",
      'loops': ["""
-        assigns buf.vs_base_StreamBuf.pos, this->directives_, vs_exc, g_hit_end, g_w, $HOISTED
+        assigns buf.vs_base_StreamBuf.pos, this->directives_, vs_exc, g_hit_end, g_j, g_w, $HOISTED
         invariant buf.vs_base_StreamBuf.pos <= buf.vs_base_StreamBuf.len && vs_exc == 0
         decreases buf.vs_base_StreamBuf.len - buf.vs_base_StreamBuf.pos""", """
-        assigns buf.vs_base_StreamBuf.pos, this->directives_, g_hit_end, found, $I, d
+        assigns buf.vs_base_StreamBuf.pos, this->directives_, g_hit_end, g_j, found, $I, d
         invariant $I <= 8 && buf.vs_base_StreamBuf.pos <= buf.vs_base_StreamBuf.len && LOOP_ENTRY(buf.vs_base_StreamBuf.pos) <= buf.vs_base_StreamBuf.pos
         invariant !found ==> buf.vs_base_StreamBuf.pos == LOOP_ENTRY(buf.vs_base_StreamBuf.pos)
         decreases 8 - $I""", """
-        assigns buf.vs_base_StreamBuf.pos, this->directives_, vs_exc, g_hit_end, g_w, $I, d, $HOISTED
+        assigns buf.vs_base_StreamBuf.pos, this->directives_, vs_exc, g_hit_end, g_j, g_w, $I, d, $HOISTED
         invariant $I <= 4 && buf.vs_base_StreamBuf.pos == LOOP_ENTRY(buf.vs_base_StreamBuf.pos) && vs_exc == 0
         decreases 4 - $I""", """
         assigns buf.vs_base_StreamBuf.pos, g_hit_end, c
